@@ -379,10 +379,18 @@ func (g *Gen) expand(pat string, v View) {
 			return Action{Op: "release", Sel: i, Desc: held[i].Desc(), Mode: rapid.SampledFrom([]string{"deliver", "deliver", "deliver", "deliver", "deliver", "drop", "dup"}).Draw(g.T, "rel")}, true
 		}
 		rounds := rapid.IntRange(3, 10).Draw(t, "rounds")
+		// voters may lose their memory between two vote requests: crash and immediate restart
+		amnesia := g.P.Crashes && rapid.Bool().Draw(t, "amnesia")
 		for r := 0; r < rounds; r++ {
 			k := rapid.IntRange(1, 6).Draw(t, "k")
 			for i := 0; i < k; i++ {
 				st = append(st, rel)
+			}
+			if amnesia && rapid.IntRange(0, 2).Draw(t, "forget") == 0 {
+				id := g.anyNode("amnesiac")
+				st = append(st, lit(Action{Op: "crash", Node: id}), lit(Action{Op: "restart", Node: id}))
+				// its links are as before: what it sends stays with the scheduler
+				st = append(st, lit(Action{Op: "isolate", Node: id, Mode: "held", Dir: "out"}))
 			}
 			st = append(st, advance(g.dur("gap", 200, 1000, 5000, hb, et/2, et+1000)))
 		}
@@ -589,6 +597,131 @@ func (g *Gen) expand(pat string, v View) {
 		}
 		st = append(st, advance(g.dur("d2", hb, 2*hb, et)), lit(Action{Op: "heal", Mode: "deliver"}), advance(g.dur("d3", et, 3*et)))
 		g.push("P21", st...)
+	case "P22": // a reply outlives two leaderships: partial replication, overwrite by another leader, re-election, late reply
+		if leader == "" || len(g.C.others(leader)) < 2 {
+			g.push("P22", advance(et))
+			return
+		}
+		others := g.C.others(leader)
+		b := g.pick("witness", others) // receives the suffix, its replies are parked
+		var st []step
+		for _, o := range others {
+			if o != b {
+				st = append(st, lit(Action{Op: "link", Node: leader, Node2: o, Mode: "drop"}))
+			}
+		}
+		st = append(st, lit(Action{Op: "link", Node: b, Node2: leader, Mode: "held"}))
+		k := rapid.IntRange(1, 6).Draw(t, "suffix")
+		for i := 0; i < k; i++ {
+			st = append(st, submitAt(leader, "write"))
+		}
+		st = append(st, advance(g.dur("d0", 5000, hb, 2*hb)))
+		// the leader falls silent; the witness may not stand for election (its log is the longest)
+		st = append(st, lit(Action{Op: "link", Node: leader, Node2: b, Mode: "drop"}))
+		for _, o := range others {
+			if o != b {
+				st = append(st, lit(Action{Op: "link", Node: b, Node2: o, Mode: "noreq"}))
+			}
+		}
+		st = append(st, advance(g.dur("d1", 2*et, 3*et)))
+		nw := rapid.IntRange(0, 2).Draw(t, "nw")
+		for i := 0; i < nw; i++ {
+			st = append(st, func(g *Gen, v View) (Action, bool) {
+				id := newestLeaderExcept(v, leader)
+				if id == "" {
+					return Action{Op: "advance", DurUs: hb}, true
+				}
+				return Action{Op: "submit", Node: id, Kind: "write", Client: g.nextClient(), Timeout: 2000}, true
+			})
+		}
+		st = append(st, advance(g.dur("d2", hb, 2*hb, et)))
+		// the old leader is the only one that may ask for votes from now on
+		for _, o := range others {
+			for _, q := range g.C.Order {
+				if q != o {
+					st = append(st, lit(Action{Op: "link", Node: o, Node2: q, Mode: "noreq"}))
+				}
+			}
+		}
+		st = append(st, lit(Action{Op: "link", Node: b, Node2: leader, Mode: "held"}))
+		for _, o := range others {
+			st = append(st, lit(Action{Op: "link", Node: leader, Node2: o, Mode: "prompt"}))
+		}
+		st = append(st, advance(g.dur("d3", 3*et, 5*et)))
+		// it reaches only some of the others now; then the parked replies arrive
+		keep := g.pick("keep", others)
+		for _, o := range others {
+			if o != keep && rapid.IntRange(0, 3).Draw(t, "cut") != 0 {
+				st = append(st, lit(Action{Op: "link", Node: leader, Node2: o, Mode: "drop"}))
+			}
+		}
+		st = append(st, lit(Action{Op: "releaseto", Node: leader, Mode: "deliver"}), advance(g.dur("d4", 1000, hb)))
+		k2 := rapid.IntRange(1, 3).Draw(t, "k2")
+		for i := 0; i < k2; i++ {
+			st = append(st, submitAt(leader, "write"))
+		}
+		st = append(st, advance(g.dur("d5", hb, 2*hb)))
+		// the re-elected leader and the node it reaches are cut off, the rest moves on
+		st = append(st, lit(Action{Op: "heal", Mode: "drop"}), lit(Action{Op: "partition", Set: []string{leader, keep}, Mode: "drop"}))
+		st = append(st, advance(g.dur("d6", 2*et, 4*et)))
+		st = append(st, func(g *Gen, v View) (Action, bool) {
+			id := newestLeaderExcept(v, leader)
+			if id == "" {
+				return Action{Op: "advance", DurUs: et}, true
+			}
+			return Action{Op: "submit", Node: id, Kind: "write", Client: g.nextClient(), Timeout: 2000}, true
+		}, advance(g.dur("d7", hb, et)))
+		st = append(st, lit(Action{Op: "heal", Mode: "deliver"}), advance(g.dur("d8", et, 2*et)))
+		g.push("P22", st...)
+	case "P23": // a candidate wins through one voter whose reply is the last thing it hears; the voter forgets (crash, restart) and a rival with an equal log asks it in the same term
+		if leader == "" || len(g.C.others(leader)) < 2 || !g.P.Crashes {
+			g.push("P23", advance(et))
+			return
+		}
+		others := g.C.others(leader)
+		voter := g.pick("voter", others)
+		var st []step
+		// only the old leader may ask for votes at first; it reaches only the voter, whose replies are parked
+		for _, o := range others {
+			for _, q := range g.C.Order {
+				if q != o {
+					st = append(st, lit(Action{Op: "link", Node: o, Node2: q, Mode: "noreq"}))
+				}
+			}
+			if o != voter {
+				st = append(st, lit(Action{Op: "link", Node: leader, Node2: o, Mode: "drop"}))
+			}
+		}
+		st = append(st, lit(Action{Op: "link", Node: voter, Node2: leader, Mode: "held"}))
+		if rapid.Bool().Draw(t, "viaCrash") {
+			st = append(st, lit(Action{Op: "crash", Node: leader}), lit(Action{Op: "restart", Node: leader}))
+		} else {
+			st = append(st, lit(Action{Op: "stop", Node: leader}), lit(Action{Op: "restart", Node: leader}))
+		}
+		// prevote replies first, then the vote reply - after the link to the voter has been cut, so that
+		// the winner's first AppendEntries never reaches the voter
+		st = append(st, advance(2*et+g.dur("d0", 1000, hb)), lit(Action{Op: "releaseto", Node: leader, Mode: "deliver"}), advance(g.dur("d1", 2000, 10000)))
+		if rapid.IntRange(0, 3).Draw(t, "cutFirst") != 0 {
+			st = append(st, lit(Action{Op: "link", Node: leader, Node2: voter, Mode: "drop"}))
+		}
+		st = append(st, lit(Action{Op: "releaseto", Node: leader, Mode: "deliver"}), advance(g.dur("d2", 2000, hb)))
+		st = append(st, lit(Action{Op: "isolate", Node: leader, Mode: "drop", Dir: "out"}))
+		// the voter loses its memory; the others may campaign now
+		st = append(st, lit(Action{Op: "crash", Node: voter}), lit(Action{Op: "restart", Node: voter}))
+		silent := rapid.IntRange(0, 2).Draw(t, "voterSilent") != 0
+		for _, o := range others {
+			if o == voter && silent {
+				continue
+			}
+			for _, q := range others {
+				if q != o {
+					st = append(st, lit(Action{Op: "link", Node: o, Node2: q, Mode: "prompt"}))
+				}
+			}
+		}
+		st = append(st, advance(g.dur("d3", 2*et, 3*et, 4*et)), submitAt("anyleader", "write"), advance(hb))
+		st = append(st, lit(Action{Op: "heal", Mode: "deliver"}), advance(g.dur("d4", hb, et)))
+		g.push("P23", st...)
 	case "P10": // membership change under fault
 		g.push("P10", g.membershipSteps(v)...)
 	case "P11": // everything down, a strict majority (or everybody) comes back
